@@ -12,5 +12,5 @@ one() {
   printf "%s\t%s\t%s\t%s\n" "$s" "$c" "$code" "$sig"
 }
 export -f one; export SEED
-cat /tmp/rerun-list.txt | xargs -P 4 -I{} bash -c 'one {}' | sort -V > seeded/RESULTS.seed$SEED.tsv
+cat /tmp/rerun-list.txt | xargs -P 6 -I{} bash -c 'one {}' | sort -V > seeded/RESULTS.seed$SEED.tsv
 awk -F'\t' '{n[$3]++} END {for (k in n) print "exit " k ": " n[k]}' seeded/RESULTS.seed$SEED.tsv
